@@ -110,6 +110,7 @@ type c03TWorld struct {
 	localGrants   int
 	recovered     int
 	afterRecovery int
+	deadCtx       int
 }
 
 func c03NewTWorld(f failer, st *verifkit.Stats, e *c03Env, rate, burst, k int, t0 int64) *c03TWorld {
@@ -256,6 +257,41 @@ func (w *c03TWorld) allowN(i, n int, ctx bool, fault int) {
 	}
 	if w.recovered > 0 {
 		w.afterRecovery++
+	}
+}
+
+// allowDeadCtx is one request through AllowNCtx whose context is already done when the call is made
+// (kind 2: cancelled, 3: its deadline has passed) while the store is reachable.  The caller giving up says
+// nothing about the store, so the instances still form one bucket: a grant needs the shared bucket to hold n
+// (and, if the store did execute the request, the bucket moved whatever the caller was told); the call
+// after it is again answered by the shared bucket (asserted by the ordinary allowN that follows).
+func (w *c03TWorld) allowDeadCtx(i, n, kind int) {
+	in := w.inst[i]
+	ctx, cancel := context.WithCancel(context.Background())
+	if kind == 3 {
+		cancel()
+		ctx, cancel = context.WithDeadline(context.Background(), time.Unix(1, 0))
+	}
+	cancel()
+	p := w.e.probe()
+	got := in.lim.AllowNCtx(ctx, time.UnixMilli(w.now), n)
+	ex := w.e.executed(p)
+	if ex > 1 {
+		w.abort("allowN with a done context: %d script executions", ex)
+	}
+	want := n == 0 // zero tokens are always held
+	if ex == 1 {
+		want = w.model.take(w.sec(), n)
+	}
+	w.logf(" i%d.allowCtx[%s](%d)=%s", i, map[int]string{2: "cancelled", 3: "deadline-passed"}[kind], n, tf(got))
+	w.st.Class("allow:done-context-" + tf(got))
+	w.deadCtx++
+	if got && !want {
+		w.fail("instance %d: request for %d tokens with a done context was granted, but the store is reachable and %s (statement: with a reachable store the instances behave as one bucket; granted iff the bucket holds n)",
+			i, n, map[bool]string{true: "the shared bucket did not hold them", false: "was not consulted"}[ex == 1])
+	}
+	if got {
+		in.granted += n
 	}
 }
 
@@ -455,6 +491,25 @@ func (w *c03TWorld) jointActions(pickI *rapid.Generator[int]) map[string]func(*r
 		"advance": func(t *rapid.T) {
 			d := c03DrawAdvance(t, w)
 			w.guard(func() { w.advance(d) })
+		},
+		"donectx": func(t *rapid.T) {
+			// a caller whose context is already done (optionally after another instance emptied the bucket),
+			// then an ordinary request on the same instance: the store is reachable throughout
+			i, j := pickI.Draw(t, "inst"), pickI.Draw(t, "inst2")
+			kind := rapid.SampledFrom([]int{2, 3}).Draw(t, "kind")
+			n := c03DrawN(t, w)
+			drainFirst := rapid.Bool().Draw(t, "drainFirst")
+			w.guard(func() {
+				// a passed deadline is a failure to the Redis client's breaker: keep those few
+				if w.down || w.inst[i].local || w.inst[j].local || w.deadCtx >= 3 {
+					return
+				}
+				if drainFirst {
+					w.allowN(j, w.model.peek(w.sec()), false, c03FaultNone)
+				}
+				w.allowDeadCtx(i, n, kind)
+				w.allowN(i, 1, true, c03FaultNone)
+			})
 		},
 		"lose": func(t *rapid.T) {
 			// restart / replacement / fail-over / SCRIPT FLUSH of the reachable server
